@@ -91,8 +91,9 @@ func c13Generate(r *rand.Rand, nops int) []c13Op {
 			if live == nil || c13Compatible(w.fam, live) {
 				break
 			}
-			// wrong-family operation on a live key: rarely, and never SetHash (unspecified)
-			if w.kind != "SetHash" && r.Intn(100) < 12 {
+			// wrong-family operation on a live key: rarely; SetHash over another family (a
+			// type-changing overwrite in the memory backend) half of the times it is drawn
+			if (w.kind != "SetHash" && r.Intn(100) < 12) || (w.kind == "SetHash" && r.Intn(100) < 50) {
 				break
 			}
 			if tries > 50 {
@@ -152,12 +153,32 @@ func c13Generate(r *rand.Rand, nops int) []c13Op {
 		case "SetExpiration":
 			op.TTL = c13TTLs[r.Intn(3)]
 		}
+		retype := op.Kind == "SetHash" && live != nil && c13VKind(live) != "hash"
 		if op.Kind == "Sleep" {
 			now = now.Add(c13Sleep)
 		} else {
 			sim.step(op, now, now)
 		}
 		ops = append(ops, op)
+		if retype {
+			// usually observe the key's lifetime afterwards: it must be the one it had
+			var follow []c13Op
+			switch x := r.Intn(100); {
+			case x < 35:
+				follow = []c13Op{{Kind: "GetExpiration", Key: key}}
+			case x < 80:
+				follow = []c13Op{{Kind: "Sleep"}, {Kind: []string{"Get", "Exists", "GetAllHash", "GetExpiration"}[r.Intn(4)], Key: key}}
+			}
+			for _, f := range follow {
+				now = now.Add(time.Microsecond)
+				if f.Kind == "Sleep" {
+					now = now.Add(c13Sleep)
+				} else {
+					sim.step(f, now, now)
+				}
+				ops = append(ops, f)
+			}
+		}
 	}
 	return ops
 }
@@ -235,6 +256,7 @@ func c13RunSeqHistory(run *vk.Run, st *c13SeqStats, hidx int, ops []c13Op) {
 		c := time.Now()
 		got := c13Apply(s, op)
 		r := time.Now()
+		model.gotErr = got.Err
 		exp := model.step(op, c, r)
 		bigr[prevKind+">"+op.Kind+"|"+c13ArgTTL(op)+"|"+exp.State] = struct{}{}
 		prevKind = op.Kind
@@ -245,6 +267,9 @@ func c13RunSeqHistory(run *vk.Run, st *c13SeqStats, hidx int, ops []c13Op) {
 		judged++
 		if exp.Mark != "" {
 			locMarks[exp.Mark]++
+		}
+		if exp.Mark2 != "" {
+			locMarks[exp.Mark2]++
 		}
 		if op.Kind == "CAS" && op.TTL == 0 && exp.HasB && exp.B {
 			locMarks["cas-with-ttl0-swaps"]++
@@ -278,6 +303,7 @@ func c13RunSeqHistory(run *vk.Run, st *c13SeqStats, hidx int, ops []c13Op) {
 		c2 := time.Now()
 		got2 := c13Apply(s, rop)
 		r2 := time.Now()
+		model.gotErr = got2.Err
 		exp2 := model.step(rop, c2, r2)
 		if !exp2.Judge {
 			unjudged++
@@ -309,7 +335,7 @@ func TestVerifC13Sequential(t *testing.T) {
 	vk.Quiet()
 	run := vk.Start(t, "C13", "sequential")
 	defer run.Finish()
-	run.Rule("seeded histories of 30-80 operations over keys k1..k4 (all 19 operations + sleep 60 ms; values: strings, JSON strings, int64; ttl in {0, 40 ms, 1 h}), generated as a pure function of the seed with a synthetic-clock copy of the model biasing towards live/expired/typed states; executed on a fresh memory.Storage; every answer (and an immediate Get read-back after every mutator, so that a wrong effect is attributed to the operation that caused it) compared with the reference map-with-expiry under the interval rule; distinct = (previous op > op, ttl-argument class, key state before)")
+	run.Rule("seeded histories of 30-80 operations over keys k1..k4 (all 19 operations + sleep 60 ms; values: strings, JSON strings, int64; ttl in {0, 40 ms, 1 h}), generated as a pure function of the seed with a synthetic-clock copy of the model biasing towards live/expired/typed states; executed on a fresh memory.Storage; every answer (and an immediate Get read-back after every mutator, so that a wrong effect is attributed to the operation that caused it) compared with the reference map-with-expiry under the interval rule (SetHash over a live value of another family: refusal or replacement both accepted, the key's lifetime must stay what it was - observed by GetExpiration / reads after the deadline); distinct = (previous op > op, ttl-argument class, key state before)")
 	nh := run.Pick(400, 8000)
 	workers := 8
 	st := &c13SeqStats{bigrams: map[string]struct{}{}, marks: map[string]int64{}}
@@ -359,6 +385,8 @@ func TestVerifC13Sequential(t *testing.T) {
 	run.Floor("branch_setnx-after-expiry", 5)
 	run.Floor("branch_setlist-empty-over-nonempty", 5)
 	run.Floor("branch_get-after-expiry", 20)
+	run.Floor("branch_sethash-over-live-other-family", 40)
+	run.Floor("branch_lifetime-observed-after-retype", 20)
 	run.Floor("branch_setexp-ttl0-on-live", 20)
 	run.Floor("observations_judged_certain", int64(nh)*20)
 }
